@@ -33,6 +33,8 @@ SLOTS = {
     "generic": ("proc", "M"),
     "deferred": ("absint", "M"),
     "constructor": ("proc", "M"),
+    # a deferred binding has an interface but no target: procedures that happen to carry the binding's name are not its target
+    "deferred-name": ("proc", "M"),
 }
 
 PLACEMENTS = {
@@ -114,6 +116,9 @@ def ref_lines(slot, refname):
         return ["interface refg", f"  module procedure {refname}", "end interface refg"], []
     if slot == "deferred":
         return ["type, abstract :: reft", "contains", f"  procedure({refname}), deferred, nopass :: refb", "end type reft"], []
+    if slot == "deferred-name":
+        return ["abstract interface", "  subroutine dn_abs()", "  end subroutine dn_abs", "end interface",
+                "type, abstract :: reft", "contains", f"  procedure(dn_abs), deferred, nopass :: {refname}", "end type reft"], []
     if slot == "constructor":
         # structure constructor: a generic interface with the name of the type
         return [f"type {refname}", "  integer :: ctype", f"end type {refname}"], []
@@ -258,6 +263,10 @@ def observe(project, slot, scope):
         return tag_of(t[0].boundprocs[0].bindings[0])
     if slot == "deferred":
         return tag_of(t[0].boundprocs[0].proto)
+    if slot == "deferred-name":
+        from ford.sourceform import FortranBase
+        tg = [b for b in t[0].boundprocs[0].bindings if isinstance(b, FortranBase)]
+        return tag_of(tg[0]) if tg else "unresolved"
     if slot == "final":
         return tag_of(t[0].finalprocs[0].procedure) if t[0].finalprocs[0].procedure is not None else "unresolved"
     if slot == "constructor":
@@ -396,8 +405,106 @@ def run_sub_case(st: Stats, case):
     st.nontrivial.add(core.digest(inp["case"]))
 
 
+# ---- interface bodies with their own USE ---------------------------------------
+IFB_BLOCKS = ["unnamed", "generic", "abstract", "in-procedure", "generic-in-procedure"]
+IFB_SLOTS = ["argtype", "result", "ppi-absint"]
+
+
+def build_ifb(block, slot, present, useform, case, host_use):
+    """An interface body is a scope of its own: what it names comes from its own USE (or IMPORT) only."""
+    dname = {"lower": X, "mixed": "Xq", "refupper": X}[case]
+    rname = {"lower": X, "mixed": X, "refupper": "XQ"}[case]
+    kind = "absint" if slot == "ppi-absint" else "type"
+    lib = []
+    for mod, pl in (("otherm", "other"), ("usedm", "used")):
+        sp, c = decl(kind, pl, dname) if pl in present else ([], [])
+        lib += [f"module {mod}", "  implicit none", "  integer :: filler_u"] + ind(sp) + [f"end module {mod}", ""]
+    files = {"src/a_lib.f90": "\n".join(lib) + "\n"}
+    uline = use_line(("self", useform, "direct"), dname, rname).split("\n")
+    if slot == "argtype":
+        body = ["subroutine body(refv)"] + ind(uline) + [f"  type({rname}) :: refv", "end subroutine body"]
+    elif slot == "result":
+        body = ["function body() result(refv)"] + ind(uline) + [f"  type({rname}) :: refv", "end function body"]
+    else:
+        body = ["subroutine body(refpp)"] + ind(uline) + [f"  procedure({rname}) :: refpp", "end subroutine body"]
+    head = {"unnamed": "interface", "generic": "interface refgen", "abstract": "abstract interface", "in-procedure": "interface", "generic-in-procedure": "interface refgen"}[block]
+    blk = [head] + ind(body) + ["end interface"]
+    hu = ["  use otherm"] if host_use else []
+    if block.endswith("in-procedure"):
+        src = ["module hostm"] + hu + ["  implicit none", "contains", "  subroutine hostp()"] + ind(blk, 2) + ["  end subroutine hostp", "end module hostm"]
+    else:
+        src = ["module hostm"] + hu + ["  implicit none"] + ind(blk) + ["end module hostm"]
+    files["src/m_host.f90"] = "\n".join(src) + "\n"
+    return files
+
+
+def observe_ifb(project, block, slot):
+    hostm = [m for m in project.modules if m.name == "hostm"][0]
+    host = hostm.subroutines[0] if block.endswith("in-procedure") else hostm
+    if block == "abstract":
+        body = [a for a in host.absinterfaces if a.name == "body"][0].procedure
+    elif block.startswith("generic"):
+        body = [r for i in host.interfaces if i.name == "refgen" for r in i.routines if r.name == "body"][0]
+    else:
+        body = [i for i in host.interfaces if getattr(i, "procedure", None) is not None and i.procedure.name == "body"][0].procedure
+    if slot == "result":
+        v = body.retvar
+    else:
+        v = [a for a in body.args if getattr(a, "name", a) in ("refv", "refpp")][0]
+    proto = getattr(v, "proto", None)
+    return tag_of(proto[0]) if proto else "unresolved"
+
+
+def gen_ifb_cases(tier):
+    for block in IFB_BLOCKS:
+        for slot in IFB_SLOTS:
+            for present in (("used",), ("used", "other"), ("other",), ()):
+                for form in USE_FORMS:
+                    for case in ("lower", "refupper") if tier == "thorough" else ("lower",):
+                        for host_use in (False, True):
+                            if host_use and "other" in present:
+                                continue  # FORD lets interface bodies see the host's names (no IMPORT needed): keep the host silent about this name
+                            yield ("ifb:" + block, slot, present, case, form, host_use)
+
+
+def run_ifb_case(st: Stats, case):
+    block, slot, present, cs, form, host_use = case
+    block = block[4:]
+    files = build_ifb(block, slot, set(present), form, cs, host_use)
+    want = "used" if ("used" in present and used_visible(("self", form, "direct"))) else "unresolved"
+    stratum = f"interface-body/{block}/{slot}"
+    inp = dict(case=["ifb:" + block, slot, list(present), cs, form, host_use], files=files)
+    feats = dict(slot=slot, scope=f"interface-body-{block}", present=",".join(present), case=cs, order="-", expected=want, use_form=form, host_use=host_use)
+    for perm in itertools.permutations(sorted(files)):
+        fordrun.FILE_ORDER = lambda fl, perm=perm: sorted(fl, key=lambda p: perm.index("src/" + p.name))
+        r = fordrun.build_fast(files, dict(display=["public", "private", "protected"], proc_internals=True))
+        fordrun.FILE_ORDER = None
+        st.evaluations += 1
+        st.transitions += 1
+        f = dict(feats, file_order=",".join(x[4] for x in perm))
+        if r.error is not None or "ERROR in file" in r.log or "Error parsing" in r.log:
+            st.violation("ford-failed", stratum, f, inp, repr(r.error) + r.log[-300:], "parses and correlates")
+            st.stratum(stratum, 1)
+            continue
+        try:
+            got = observe_ifb(r.project, block, slot)
+        except Exception as e:  # noqa
+            got = f"<observe failed: {type(e).__name__}: {e}>"
+        st.states.add(core.digest([block, slot, present, form, got]))
+        if got != want:
+            invisible = set(present) - {want}
+            f.update(observed=got, leaked_from=got if got in invisible else "")
+            clause = "resolved-to-invisible-declaration" if got in invisible else ("visible-declaration-not-found" if got == "unresolved" else "wrong-declaration")
+            st.violation(clause, stratum, f, inp, got, want)
+            st.stratum(stratum, 1)
+        else:
+            st.stratum(stratum, 0)
+    st.nontrivial.add(core.digest(inp["case"]))
+
+
 def gen_cases(tier):
     yield from gen_sub_cases(tier)
+    yield from gen_ifb_cases(tier)
     yield from gen_main_cases(tier)
 
 
@@ -461,6 +568,8 @@ def _run_one(st: Stats, case, files, perm, useform):
     st.evaluations += 1
     st.transitions += 1
     want = resolve_use(scope, present, useform) or "unresolved"
+    if slot == "deferred-name":
+        want = "unresolved"
     stratum = f"{slot}/{scope}" + ("" if useform == DEFAULT_USE else "/use-forms")
     inp = dict(case=[slot, scope, list(present), cs, order] + ([list(useform)] if rest else []), files=files, order=list(perm))
     invisible = sorted(set(present) - {want})
@@ -492,6 +601,8 @@ def work(chunk):
     for case in chunk:
         if str(case[0]).startswith("sub:"):
             run_sub_case(st, case)
+        elif str(case[0]).startswith("ifb:"):
+            run_ifb_case(st, case)
         else:
             run_case(st, case)
     return st
@@ -506,6 +617,8 @@ def replay(path):
     st = Stats()
     if str(slot).startswith("sub:"):
         run_sub_case(st, (slot, scope, tuple(present), cs, order))
+    elif str(slot).startswith("ifb:"):
+        run_ifb_case(st, (slot, scope, tuple(present), cs, order, rest[0]))
     else:
         run_case(st, (slot, scope, tuple(present), cs, order) + ((tuple(rest[0]),) if rest else ()), only_perm=rec["input"].get("order"))
     for f, t in rec["input"]["files"].items():
